@@ -402,8 +402,12 @@ func genKv(r *rand.Rand, tier string) kvInput {
 		case x >= 15 && x <= 16:
 			cn := pick(r, live)
 			h := r.Intn(in.Handles)
-			if r.Intn(5) == 0 {
-				in.Ops = append(in.Ops, Step{Kind: "delddoc", Coll: cn, Handle: h, DDoc: "dd", Clock: next()})
+			ddn := pick(r, []string{"dd", "dd", "dd", "dd2"})
+			if r.Intn(4) == 0 {
+				// what the collection's design documents are (another collection's are none of its business)
+				in.Ops = append(in.Ops, Step{Kind: "getddocs", Coll: cn, Handle: h, Clock: next()})
+			} else if r.Intn(5) == 0 {
+				in.Ops = append(in.Ops, Step{Kind: "delddoc", Coll: cn, Handle: h, DDoc: ddn, Clock: next()})
 			} else {
 				perm := r.Perm(numMaps)
 				nv := 1 + r.Intn(3)
@@ -411,13 +415,16 @@ func genKv(r *rand.Rand, tier string) kvInput {
 				for j := 0; j < nv; j++ {
 					vs = append(vs, ViewDef{Name: fmt.Sprintf("v%d", j), Map: perm[j]})
 				}
-				in.Ops = append(in.Ops, Step{Kind: "putddoc", Coll: cn, Handle: h, DDoc: "dd", Views: vs, Clock: next()})
+				in.Ops = append(in.Ops, Step{Kind: "putddoc", Coll: cn, Handle: h, DDoc: ddn, Views: vs, Clock: next()})
+				if r.Intn(3) == 0 {
+					in.Ops = append(in.Ops, Step{Kind: "getddocs", Coll: pick(r, live), Handle: r.Intn(in.Handles), Clock: next()})
+				}
 			}
 		case x >= 17 && x <= 22:
 			cn := pick(r, live)
 			h := r.Intn(in.Handles)
 			vp := genViewParams(r)
-			in.Ops = append(in.Ops, Step{Kind: "view", Coll: cn, Handle: h, DDoc: "dd", View: fmt.Sprintf("v%d", r.Intn(3)), VP: vp, Clock: next()})
+			in.Ops = append(in.Ops, Step{Kind: "view", Coll: cn, Handle: h, DDoc: pick(r, []string{"dd", "dd", "dd", "dd", "dd2"}), View: fmt.Sprintf("v%d", r.Intn(3)), VP: vp, Clock: next()})
 		case x == 9 && in.OnDisk:
 			in.Ops = append(in.Ops, Step{Kind: "reopen", Clock: next()})
 		case x >= 4 && x <= 7:
@@ -702,6 +709,18 @@ func genMotif(r *rand.Rand, m int, in *kvInput, exists map[string]bool, hot []st
 			in.Ops = append(in.Ops, Step{Kind: "kv", Coll: cn, Key: key, Handle: h, Op: op, Nested: nested, Clock: next()})
 		}
 		toucher := func() *KOp { return &KOp{Kind: pick(r, []string{"Touch", "GetAndTouchRaw"}), Exp: pick(r, farExps)} }
+		if r.Intn(3) == 0 {
+			// the key has no row at all (not even a tombstone) when the loop reads it, and is created inside the window
+			kv(deleter())
+			in.Ops = append(in.Ops, Step{Kind: "purge", Handle: h, Clock: next()})
+			creator := &KOp{Kind: pick(r, []string{"Add", "Set", "WriteCas"}), CasMode: "zero", Val: sp(pick(r, []string{`{"other":"kept"}`, `{"a":1,"b":{"c":2}}`}))}
+			if r.Intn(2) == 0 {
+				kvn(&KOp{Kind: "WriteSubDoc", Path: pick(r, subdocPaths), CasMode: "zero", Val: sp(pick(r, subdocVals[:3]))}, creator)
+			} else {
+				kvn(&KOp{Kind: "Update", Exp: genExp(r), Cb: &Callback{Kind: pick(r, []string{"set", "append"}), Val: sp(pick(r, jsonBodies))}}, creator)
+			}
+			kv(read())
+		}
 		kv(&KOp{Kind: "Set", Val: sp(pick(r, []string{`{"a":1,"b":{"c":2}}`, `{"a":1,"b":2,"q":3}`, `{"n":null,"s":"x","b":{"c":{"d":5}}}`}))})
 		for j := 0; j < 2+r.Intn(2); j++ {
 			var nested *KOp
